@@ -412,6 +412,34 @@ func verify(argv []string) int {
 		}
 		return 1
 	}
+	// thorough tier: bounded stand-ins registered for this property (real code, finite bound)
+	var boundedReports []interface{}
+	if *tier == "thorough" && *expectFail == "" && *only == "" {
+		for _, tpl := range boundedTemplates(*verif, *prop) {
+			t0 := time.Now()
+			out, repro := runReplay(*verif, *repo, &tpl, map[string]interface{}{})
+			passed := !repro && strings.Contains(out, "\nok ") || (!repro && strings.HasPrefix(out, "ok "))
+			var lines []string
+			for _, ln := range strings.Split(out, "\n") {
+				if strings.Contains(ln, "BOUNDED:") || strings.Contains(ln, "REPRODUCED") {
+					lines = append(lines, strings.TrimSpace(ln))
+				}
+			}
+			br := map[string]interface{}{"kind": "bounded stand-in (NOT a proof)", "test": tpl.Run, "package": tpl.Pkg, "bound": tpl.Bound, "passed": passed, "wall_s": time.Since(t0).Seconds(), "lines": lines}
+			boundedReports = append(boundedReports, br)
+			if repro {
+				violations++
+				os.MkdirAll(replayDir, 0o755)
+				rp := filepath.Join(replayDir, "bounded_"+sanitize(tpl.Run)+".json")
+				rj := map[string]interface{}{"property": *prop, "obligation": "bounded:" + tpl.Run, "bound": tpl.Bound, "replay_template": tpl, "replay_output": truncate(out, 8000), "replayed": true, "reproduced_on_real_code": true}
+				b, _ := json.MarshalIndent(rj, "", " ")
+				os.WriteFile(rp, b, 0o644)
+				fmt.Printf("VIOLATION property=%s replay=%s obligation=bounded:%s counterexample-replayed-on-real-code\n", *prop, rp, tpl.Run)
+			} else if !passed {
+				fmt.Printf("NOTE bounded stand-in %s did not run to completion (not counted): %s\n", tpl.Run, truncate(out, 300))
+			}
+		}
+	}
 	if !*noEvidence {
 		var tb []string
 		tb = append(tb, "go/parser + go/types + golang.org/x/tools/go/ssa v0.29.0 (source to SSA)", "govc translator and memory model (/verif/govc)", "SMT solvers: z3 5.1.0, z3 4.8.12, cvc5 1.0.3", "termination not proved; partial correctness (panicking paths do not reach postconditions)", "machine integers treated as mathematical integers; float64 as reals")
@@ -460,7 +488,7 @@ func verify(argv []string) int {
 				"functions_under_contract": fns, "per_obligation": reports, "backends": backends,
 				"solver_time_s": solverTime, "load_time_s": loadS, "covers": nCover, "vacuous": nVac,
 				"callee_contracts_used": con, "inlined_callees": inl, "known_findings": knownHit,
-				"contract_files": specs.Files,
+				"contract_files": specs.Files, "bounded_stand_ins": boundedReports,
 			},
 			"assumptions": tb, "wall_s": wall, "violations": violations,
 		}
@@ -498,6 +526,29 @@ type replayTemplate struct {
 	// Scenario templates take no witness: they run a fixed corpus of concrete inputs
 	// (one per input class the function's contract distinguishes) on the real code.
 	Scenario bool `json:"scenario,omitempty"`
+	// Bounded stand-ins run in the thorough tier only: a finite exploration of the
+	// real code where no contract within reach decides the statement. Never counted
+	// as proved; reported separately in the evidence.
+	Bounded  bool   `json:"bounded,omitempty"`
+	Property string `json:"property,omitempty"`
+	Bound    string `json:"bound,omitempty"`
+}
+
+func boundedTemplates(verif, prop string) []replayTemplate {
+	b, err := os.ReadFile(filepath.Join(verif, "replay", "registry.json"))
+	if err != nil {
+		return nil
+	}
+	var ts, out []replayTemplate
+	if json.Unmarshal(b, &ts) != nil {
+		return nil
+	}
+	for _, t := range ts {
+		if t.Bounded && t.Property == prop {
+			out = append(out, t)
+		}
+	}
+	return out
 }
 
 func findReplayTemplate(verif, fn string) *replayTemplate {
@@ -510,6 +561,9 @@ func findReplayTemplate(verif, fn string) *replayTemplate {
 		return nil
 	}
 	for i := range ts {
+		if ts[i].Bounded {
+			continue
+		}
 		if strings.Contains(fn, ts[i].Match) {
 			return &ts[i]
 		}
